@@ -121,6 +121,78 @@ func callerRetries(fd *ast.FuncDecl) bool {
 	return found
 }
 
+// expiredCaseFacts looks at the top-level statements of processCompleted's `case runner := <-s.expiredCh:` clause:
+//
+//	atomic   – no `runner.refMu.Unlock()` between the `runner.refCount > 0` test and `runner.unload()`
+//	           (the check and the unload are one critical section of refMu: no check-then-act window)
+//	underMu  – `runner.unload()` and every delete on s.loaded sit between `s.loadedMu.Lock()` and the
+//	           clause's top-level `s.loadedMu.Unlock()` (a new runner cannot be inserted while the old one shuts down)
+func expiredCaseFacts(fd *ast.FuncDecl) (found, atomic, underMu bool) {
+	var body []ast.Stmt
+	ast.Inspect(fd.Body, func(n ast.Node) bool {
+		if cc, ok := n.(*ast.CommClause); ok && cc.Comm != nil && strings.Contains(src(cc.Comm), "s.expiredCh") {
+			body = cc.Body
+			return false
+		}
+		return true
+	})
+	if body == nil {
+		return false, false, false
+	}
+	idx := func(pred func(ast.Stmt) bool) []int {
+		var out []int
+		for i, st := range body {
+			if pred(st) {
+				out = append(out, i)
+			}
+		}
+		return out
+	}
+	isCall := func(text string) func(ast.Stmt) bool {
+		return func(st ast.Stmt) bool {
+			es, ok := st.(*ast.ExprStmt)
+			return ok && src(es.X) == text
+		}
+	}
+	containsCall := func(text string) func(ast.Stmt) bool {
+		return func(st ast.Stmt) bool {
+			f := false
+			ast.Inspect(st, func(n ast.Node) bool {
+				if ce, ok := n.(*ast.CallExpr); ok && strings.HasPrefix(src(ce), text) {
+					f = true
+				}
+				return !f
+			})
+			return f
+		}
+	}
+	check := idx(func(st ast.Stmt) bool {
+		is, ok := st.(*ast.IfStmt)
+		return ok && strings.Contains(src(is.Cond), "runner.refCount")
+	})
+	unload := idx(isCall("runner.unload()"))
+	refUnlock := idx(isCall("runner.refMu.Unlock()"))
+	muLock := idx(isCall("s.loadedMu.Lock()"))
+	muUnlock := idx(isCall("s.loadedMu.Unlock()"))
+	deletes := idx(containsCall("delete(s.loaded"))
+	if len(check) != 1 || len(unload) != 1 || len(muLock) != 1 || len(muUnlock) != 1 {
+		return true, false, false
+	}
+	atomic = check[0] < unload[0]
+	for _, u := range refUnlock {
+		if u > check[0] && u < unload[0] {
+			atomic = false
+		}
+	}
+	underMu = muLock[0] < unload[0] && unload[0] < muUnlock[0]
+	for _, d := range deletes {
+		if !(muLock[0] < d && d < muUnlock[0]) {
+			underMu = false
+		}
+	}
+	return true, atomic, underMu
+}
+
 func main() {
 	f, err := parser.ParseFile(fset, os.Getenv("SCHED_GO"), nil, 0)
 	if err != nil {
@@ -145,4 +217,6 @@ func main() {
 		}
 	}
 	fmt.Printf("deletesElsewhere=%d\n", others)
+	found, atomic, underMu := expiredCaseFacts(pc)
+	fmt.Printf("expiredCaseFound=%v\nexpiredAtomic=%v\nunloadUnderLoadedMu=%v\n", found, atomic, underMu)
 }
